@@ -82,6 +82,13 @@ func (o *Option) Clean(input string) string {
 	return input[:loc[0]] + o.cleanKeyword(o.Raw) + input[loc[1]:]
 }
 
+// ReplaceLine replaces the directive line (the whole line, not a longer line
+// that merely starts with it) by new in input.
+func (o *Option) ReplaceLine(input string, new string) string {
+	reg := regexp.MustCompile(`(?m)^` + regexp.QuoteMeta(o.Raw) + `$`)
+	return reg.ReplaceAllLiteralString(input, new)
+}
+
 // cleanKeyword removes the dirextive keywork (#aa:...) from the input string
 func (o *Option) cleanKeyword(input string) string {
 	reg := regexp.MustCompile(`\s*` + Keyword + o.Name + `( .*)?$`)
